@@ -196,35 +196,45 @@ theorem tLoop2_step (env : Env) (hwf : WF2 env = true) (h : Heap) (flat : List V
       simp only [classify, hk2 e]
       cases env.isKind (lookupKinds "[") e <;> simp
   · -- "P"
-    obtain ⟨hg1, _, _⟩ := getHandler_coherent r env.k.ct (cur.clsName h) hc
-    have hs : stepReg env h "P" cur r = (r.getHandler env.k.ct (cur.clsName h)).2 := by
-      simp [stepReg]
     have hne1 : ("P" == ".") = false := by decide
     have hne2 : ("P" == "[") = false := by decide
-    simp only [hd3, hs, refStep, refLog, hne1, hne2, beq_self_eq_true, if_true]
-    simp only [Bool.false_eq_true, if_false]
-    rw [← hg1]
-    have hp : env.prim h "handler" cur arg r =
-        match r.getHandler env.k.ct (cur.clsName h) with
-        | (some hn, r') => .ran (env.applyHandler h hn cur arg) (env.handlerLog h hn cur arg) r'
-        | (none, r') => .unregistered r' := by
-      have e1 : ("handler" == "getattr") = false := by decide
-      have e2 : ("handler" == "getitem") = false := by decide
-      simp only [Env.prim, e1, e2, beq_self_eq_true, if_true, Bool.false_eq_true, if_false]
-      rcases r.getHandler env.k.ct (cur.clsName h) with ⟨ho, r'⟩
-      cases ho <;> rfl
-    rw [hp]
-    rcases hgh : r.getHandler env.k.ct (cur.clsName h) with ⟨ho, r'⟩
-    cases ho with
-    | none => simp
-    | some hn =>
-      simp only
-      cases env.applyHandler h hn cur arg with
-      | ok v => simp [classify]
-      | beyond => simp [classify]
-      | err e =>
-        simp only [classify, hk3 e]
-        cases env.isKind (lookupKinds "P") e <;> simp
+    have e1 : ("handler" == "getattr") = false := by decide
+    have e2 : ("handler" == "getitem") = false := by decide
+    cases hmod : modelled h cur with
+    | false =>
+      have hs : stepReg env h "P" cur r = r := by simp [stepReg, hmod]
+      have hp : env.prim h "handler" cur arg r = .ran .beyond [] r := by
+        simp only [Env.prim, e1, e2, hmod, beq_self_eq_true, if_true, Bool.false_eq_true, if_false,
+          Bool.not_false]
+      simp only [hd3, hp, hs, refStep, refLog, hne1, hne2, hmod, beq_self_eq_true, if_true,
+        Bool.false_eq_true, if_false, Bool.not_false, List.append_nil]
+    | true =>
+      obtain ⟨hg1, _, _⟩ := getHandler_coherent r env.k.ct (cur.clsName h) hc
+      have hs : stepReg env h "P" cur r = (r.getHandler env.k.ct (cur.clsName h)).2 := by
+        simp [stepReg, hmod]
+      simp only [hd3, hs, refStep, refLog, hne1, hne2, hmod, beq_self_eq_true, if_true,
+        Bool.false_eq_true, if_false, Bool.not_true]
+      rw [← hg1]
+      have hp : env.prim h "handler" cur arg r =
+          match r.getHandler env.k.ct (cur.clsName h) with
+          | (some hn, r') => .ran (env.applyHandler h hn cur arg) (env.handlerLog h hn cur arg) r'
+          | (none, r') => .unregistered r' := by
+        simp only [Env.prim, e1, e2, hmod, beq_self_eq_true, if_true, Bool.false_eq_true, if_false,
+          Bool.not_true]
+        rcases r.getHandler env.k.ct (cur.clsName h) with ⟨ho, r'⟩
+        cases ho <;> rfl
+      rw [hp]
+      rcases hgh : r.getHandler env.k.ct (cur.clsName h) with ⟨ho, r'⟩
+      cases ho with
+      | none => simp
+      | some hn =>
+        simp only
+        cases env.applyHandler h hn cur arg with
+        | ok v => simp [classify]
+        | beyond => simp [classify]
+        | err e =>
+          simp only [classify, hk3 e]
+          cases env.isKind (lookupKinds "P") e <;> simp
 
 /-! ### the loop is the walk -/
 
@@ -260,6 +270,49 @@ theorem walkReg_coherent (env : Env) (h : Heap) :
     · obtain ⟨ht2, hc2⟩ := ih _ _ hc'
       exact ⟨ht2.trans ht, hc2⟩
     · exact ⟨ht, hc'⟩
+
+theorem classify_access (env : Env) (op : String) (a : Acc) :
+    classify env op a ≠ .noHandler ∧ classify env op a ≠ .notAccess := by
+  cases a with
+  | ok v => simp [classify]
+  | beyond => simp [classify]
+  | err e => simp only [classify]; split <;> simp
+
+/-- a segment that is not applied (no handler / not an access) is not logged -/
+theorem refLog_nil (env : Env) (t : Table) (h : Heap) (op : String) (cur arg : Val)
+    (hr : refStep env t h op cur arg = .noHandler ∨ refStep env t h op cur arg = .notAccess) :
+    refLog env t h op cur arg = [] := by
+  have hca := classify_access env op
+  unfold refStep at hr
+  unfold refLog
+  split at hr
+  · rcases hr with hr | hr
+    · exact absurd hr (hca _).1
+    · exact absurd hr (hca _).2
+  · rename_i h1
+    rw [if_neg h1]
+    split at hr
+    · rcases hr with hr | hr
+      · exact absurd hr (hca _).1
+      · exact absurd hr (hca _).2
+    · rename_i h2
+      rw [if_neg h2]
+      split at hr
+      · rename_i h3
+        rw [if_pos h3]
+        split at hr
+        · rename_i hm; rw [if_pos hm]
+        · rename_i hm
+          rw [if_neg hm]
+          cases hn : t.nearest env.k.ct (cur.clsName h) with
+          | none => rfl
+          | some hn' =>
+            rw [hn] at hr
+            simp only at hr
+            rcases hr with hr | hr
+            · exact absurd hr (hca _).1
+            · exact absurd hr (hca _).2
+      · rename_i h3; rw [if_neg h3]
 
 theorem tLoop2_eq_walk2 (env : Env) (hwf : WF2 env = true) (h : Heap) (root : Val)
     (rest : List (String × Val)) :
@@ -301,45 +354,10 @@ theorem tLoop2_eq_walk2 (env : Env) (hwf : WF2 env = true) (h : Heap) (root : Va
     | escapes e => simp [resOfWalk]
     | beyond => simp [resOfWalk]
     | noHandler =>
-      have hl : refLog env r.tbl h op cur arg = [] := by
-        unfold refStep at hr
-        unfold refLog
-        split at hr
-        · cases hh : pyGetattr2 env.k h cur arg <;> rw [hh] at hr <;> simp [classify] at hr
-          split at hr <;> contradiction
-        · split at hr
-          · cases hh : pyGetitem2 env.k h cur arg <;> rw [hh] at hr <;> simp [classify] at hr
-            split at hr <;> contradiction
-          · split at hr
-            · rename_i h1 h2 h3
-              simp only [h1, h2, h3, if_true, Bool.false_eq_true, if_false]
-              split
-              · rename_i hn hnn
-                rw [hnn] at hr
-                simp only at hr
-                cases hh : env.applyHandler h hn cur arg <;> rw [hh] at hr <;> simp [classify] at hr
-                split at hr <;> contradiction
-              · rfl
-            · contradiction
+      have hl := refLog_nil env r.tbl h op cur arg (Or.inl hr)
       simp [resOfWalk, hl]
     | notAccess =>
-      have hl : refLog env r.tbl h op cur arg = [] := by
-        unfold refStep at hr
-        unfold refLog
-        split at hr
-        · cases hh : pyGetattr2 env.k h cur arg <;> rw [hh] at hr <;> simp [classify] at hr
-          split at hr <;> contradiction
-        · split at hr
-          · cases hh : pyGetitem2 env.k h cur arg <;> rw [hh] at hr <;> simp [classify] at hr
-            split at hr <;> contradiction
-          · split at hr
-            · split at hr
-              · rename_i hn hnn
-                cases hh : env.applyHandler h hn cur arg <;> rw [hh] at hr <;> simp [classify] at hr
-                split at hr <;> contradiction
-              · contradiction
-            · rename_i h1 h2 h3
-              simp [h1, h2, h3]
+      have hl := refLog_nil env r.tbl h op cur arg (Or.inr hr)
       simp [resOfWalk, hl]
 
 /-! ### characterisation of the reference walk -/
